@@ -36,6 +36,10 @@ import (
 //              is asked for hostile URL paths (oracle: canary diff, cache dir is designated)
 //   keyring    InitKeyring with hostile key file names, chainguard key discovery with hostile `kid`s
 //              (oracle: canary diff + the file the key lands in)
+//   pkgrec / pkgcache   hostile package records (index / lock-file fields) through cacheDirForPackage and through
+//              InstallPackages with a cache directory (confine_pkg.go)
+//   cmd        whole commands: lock / build with base image, suffix-less URLs, hostile lock-file fields, hostile
+//              architecture strings (confine_cmd.go)
 
 type confineOp struct {
 	M     string `json:"m"`
@@ -66,6 +70,9 @@ type confineCase struct {
 	Names []string `json:"names,omitempty"`
 	// install
 	Files []SFile `json:"files,omitempty"`
+	// pkgrec / pkgcache: package records as an index or a lock file states them; the package served for them
+	Pkgs []confinePkgRec `json:"pkgs,omitempty"`
+	SP   *SPkg           `json:"sp,omitempty"`
 }
 
 type confineSuite struct{}
@@ -352,16 +359,20 @@ func confineGenKeyring(r *Rng) confineCase {
 
 func (confineSuite) Gen(r *Rng, i int, tier string) any {
 	if i < len(confineCmdKinds) {
-		return confineCase{Kind: "cmd", Hdr: confineCmdKinds[i]}
+		return confineGenCmdKind(r, confineCmdKinds[i])
 	}
-	if r.Chance(1) {
+	if r.Chance(2) {
 		return confineGenCmd(r)
 	}
 	switch k := r.Intn(100); {
-	case k < 14:
+	case k < 11:
 		return confineGenLex(r)
-	case k < 62:
+	case k < 51:
 		return confineGenDirfs(r)
+	case k < 57:
+		return confineGenPkgRec(r)
+	case k < 62:
+		return confineGenPkgCache(r)
 	case k < 72:
 		return confineGenURL(r)
 	case k < 80:
@@ -826,6 +837,10 @@ func (confineSuite) Run(raw json.RawMessage) []Step {
 		return confineRunKeyring(c)
 	case "cmd":
 		return confineRunCmd(c)
+	case "pkgrec":
+		return confineRunPkgRec(c)
+	case "pkgcache":
+		return confineRunPkgCache(c)
 	}
 	panic("confine: unknown kind " + c.Kind)
 }
